@@ -12,6 +12,7 @@
  R5 addresses         no pointer is converted to an integer or ordered against another pointer outside the frozen
                       cursor/limit idioms of one buffer (so neither hashes nor sort orders can depend on addresses)
  R6 path              the name/path of the input file and the working directory reach generated text only at frozen sites
+ R7 append            every file-name template exp2cxx appends to is also created (truncated) by the same run (shared with C17)
 """
 import re
 from ir import walk, strip, expr_str
@@ -36,7 +37,9 @@ EXPLANATION = (
     "behind the literal-singleton tests, whose kinds make that member active (table from include/express/expr.h and the "
     "parser actions). (R4) calls of time/clock/rand/getpid/getenv/... and %p. (R5) pointer-to-integer casts and relational "
     "pointer comparisons only in the functions frozen as 'cursor and limit of one buffer'. (R6) input_filename, "
-    "Symbol_::filename, getcwd and __FILE__ as arguments of output sinks. "
+    "Symbol_::filename, getcwd and __FILE__ as arguments of output sinks. (R7) every file-name template that exp2cxx opens in "
+    "append mode is also opened for writing under the same template in the same run (templates from the string-template "
+    "interpreter of C17), so no output file carries text over from an earlier run. "
     "Not decided: nondeterminism through undefined behaviour elsewhere (C05/C06 cover memory safety), locale, reads of "
     "uninitialised locals, and the iteration order of the hash tables beyond 'hashes and comparators see characters only'.")
 
@@ -571,7 +574,36 @@ def r6_path(prog, res):
     res.floor("R6", "path-carrying operands at output sinks", n, 5)
 
 
+def r7_append_only_to_created(prog, res):
+    """A file that a run only ever opens for appending keeps what earlier runs left in it: the output tree then depends on
+    the state of the output directory, not only on the schema.  Every file-name template exp2cxx opens in append mode must
+    also be opened for writing (truncating) under the same template (templates computed by C17's string-template engine)."""
+    from rules import c17
+    import facts
+    import ir as _ir
+    # the template engine resolves callees by name: give it exp2cxx alone (exp2python defines functions of the same names)
+    units, _route = facts.compile_db()
+    prog17 = _ir.Program(facts.extract(facts.select(units, c17.UNITS["components"], None)))
+    gen = c17.generator_files(prog17, res)
+    if gen is None:
+        return
+    n = 0
+    for t, e in sorted(gen.items()):
+        if "a" not in e["modes"]:
+            continue
+        n += 1
+        ok = "w" in e["modes"]
+        res.add("R7.append_only_to_created", "R7|appended|%s" % t, sorted(e["sites"])[0], ok,
+                "%s is appended to only after the same run has created (truncated) it" % t if ok else
+                "%s is opened for appending but no open of that name truncates it: text left by an earlier run stays in the file, "
+                "so regenerating into a used directory gives a different tree than generating into an empty one" % t)
+    res.info["r7_file_templates"] = len(gen)
+    res.floor("R7.append_only_to_created", "file-name templates opened for appending", n, 1)
+    res.floor("R7.append_only_to_created", "file-name templates of the generator", len(gen), 10)
+
+
 def run(prog, res, tier):
+    r7_append_only_to_created(prog, res)
     r1_r2_formats(prog, res)
     r3_union(prog, res)
     r4_r5_sources(prog, res)
